@@ -1,14 +1,318 @@
 package main
 
-// Placeholder for the schedule encoding (C07); filled in later.
+// Schedules as solver variables (used by C07). Thread bodies are executed one
+// after the other in isolation: every load of a pre-existing (shared) scalar
+// cell returns a fresh variable and is logged as a read event, stores and
+// Lock/Unlock calls are logged as events. At verifJoin the partial-order
+// encoding is added to the path condition: an integer clock per event,
+// program order, read-from (each read equals the latest earlier write to its
+// cell, or the initial value) and mutual exclusion of critical sections. The
+// interleaving is then chosen by the solver, not enumerated. Data-race freedom
+// (which justifies the sequentially consistent model) is checked by locksets.
 
-type threadCtx struct{}
+import (
+	"fmt"
+	"sort"
+)
 
-func (t *threadCtx) lockEvent(ex *Exec, p *PtrVal, lock bool) {
-	ex.unsupported("thread mode not built yet")
+type evKind int
+
+const (
+	evRead evKind = iota
+	evWrite
+	evLock
+	evUnlock
+)
+
+type cellKey struct {
+	obj  *Object
+	cell int
+}
+
+type event struct {
+	id     int
+	thread int
+	op     int
+	kind   evKind
+	key    cellKey
+	val    *Term // value written / variable read
+	clock  *Term
+	held   map[cellKey]bool // mutexes held at the event
+}
+
+type threadRec struct {
+	ops []*FuncVal
+}
+
+type threadCtx struct {
+	sharedMax int // objects with ID <= sharedMax existed before the first thread
+	threads   []*threadRec
+	cur       int // index of the running thread, -1 otherwise
+	curOp     int
+	events    []*event
+	held      map[cellKey]bool
+	clockW    int
 }
 
 func (ex *Exec) threadIntrinsic(name string, args []Value) Value {
-	ex.unsupported("thread mode not built yet")
+	switch name {
+	case "verifThread":
+		if ex.threads == nil {
+			ex.threads = &threadCtx{sharedMax: ex.nextObj, cur: -1, clockW: 16}
+		}
+		sl, ok := args[0].(*SliceVal)
+		if !ok {
+			ex.unsupported("verifThread expects func values")
+		}
+		n := ex.concLen(sl.Len, "thread op count")
+		tr := &threadRec{}
+		if n > 0 {
+			for _, e := range ex.sliceReadElems(sl, n) {
+				fv, ok := e[0].(*FuncVal)
+				if !ok || fv.Fn == nil {
+					ex.unsupported("verifThread operand is not a func")
+				}
+				tr.ops = append(tr.ops, fv)
+			}
+		}
+		ex.threads.threads = append(ex.threads.threads, tr)
+		return nil
+	case "verifJoin":
+		ex.joinThreads()
+		return nil
+	}
+	ex.unsupported("thread intrinsic %s", name)
 	return nil
+}
+
+func (tc *threadCtx) newEvent(ex *Exec, kind evKind, key cellKey, val *Term) *event {
+	e := &event{id: len(tc.events), thread: tc.cur, op: tc.curOp, kind: kind, key: key, val: val}
+	e.clock = ex.tt.Var(fmt.Sprintf("clk!%d", e.id), tc.clockW)
+	e.held = map[cellKey]bool{}
+	for k := range tc.held {
+		e.held[k] = true
+	}
+	tc.events = append(tc.events, e)
+	return e
+}
+
+// sharedAccess reports whether an access to o in the current mode is a
+// shared-memory event.
+func (ex *Exec) sharedAccess(o *Object) bool {
+	tc := ex.threads
+	return tc != nil && tc.cur >= 0 && o.ID <= tc.sharedMax
+}
+
+func (tc *threadCtx) readEvent(ex *Exec, o *Object, off *Term) Value {
+	if !off.IsConst() {
+		ex.unsupported("shared access at a symbolic address in thread mode")
+	}
+	cur := o.Cells[off.Val]
+	t, ok := cur.(*Term)
+	if !ok {
+		return cur // pointers, slices…: not modelled as racing data
+	}
+	v := ex.tt.Var(fmt.Sprintf("rd!%d.w%d", len(tc.events), t.W), t.W)
+	tc.newEvent(ex, evRead, cellKey{o, int(off.Val)}, v)
+	return v
+}
+
+func (tc *threadCtx) writeEvent(ex *Exec, o *Object, off *Term, v Value) bool {
+	if !off.IsConst() {
+		ex.unsupported("shared access at a symbolic address in thread mode")
+	}
+	t, ok := v.(*Term)
+	if !ok {
+		return false
+	}
+	tc.newEvent(ex, evWrite, cellKey{o, int(off.Val)}, t)
+	return true
+}
+
+func (tc *threadCtx) lockEvent(ex *Exec, p *PtrVal, lock bool) {
+	if !p.Off.IsConst() {
+		ex.unsupported("mutex at a symbolic address")
+	}
+	key := cellKey{p.Obj, int(p.Off.Val)}
+	if tc.cur < 0 {
+		return // main thread outside thread mode: no contention
+	}
+	if lock {
+		if tc.held[key] {
+			ex.check(ex.tt.False, "deadlock: Lock of a mutex the same thread holds")
+		}
+		tc.newEvent(ex, evLock, key, nil)
+		tc.held[key] = true
+	} else {
+		if !tc.held[key] {
+			ex.check(ex.tt.False, "Unlock of a mutex the thread does not hold")
+		}
+		delete(tc.held, key)
+		tc.newEvent(ex, evUnlock, key, nil)
+	}
+}
+
+func (ex *Exec) joinThreads() {
+	tc := ex.threads
+	if tc == nil {
+		return
+	}
+	tt := ex.tt
+	// 1. run every thread in isolation
+	for ti, tr := range tc.threads {
+		tc.cur = ti
+		tc.held = map[cellKey]bool{}
+		for oi, op := range tr.ops {
+			tc.curOp = oi
+			ex.callFunc(op.Fn, nil, op.Bindings)
+		}
+		if len(tc.held) != 0 {
+			ex.check(tt.False, "thread ends holding a mutex")
+		}
+	}
+	tc.cur = -1
+	W := tc.clockW
+	zero := tt.Const(W, 0)
+	var phi []*Term
+	// 2. clocks are positive; program order
+	last := map[int]*event{}
+	for _, e := range tc.events {
+		phi = append(phi, tt.Ult(zero, e.clock), tt.Ult(e.clock, tt.Const(W, mask(W))))
+		if p := last[e.thread]; p != nil {
+			phi = append(phi, tt.Ult(p.clock, e.clock))
+		}
+		last[e.thread] = e
+	}
+	// 3. read-from
+	writes := map[cellKey][]*event{}
+	for _, e := range tc.events {
+		if e.kind == evWrite {
+			writes[e.key] = append(writes[e.key], e)
+		}
+	}
+	type wcand struct {
+		clock *Term
+		val   *Term
+	}
+	rf := func(key cellKey, rclock *Term, rval *Term) *Term {
+		init, _ := key.obj.Cells[key.cell].(*Term)
+		cands := []wcand{{zero, init}}
+		for _, w := range writes[key] {
+			cands = append(cands, wcand{w.clock, w.val})
+		}
+		var alts []*Term
+		for i, w := range cands {
+			c := []*Term{tt.Ult(w.clock, rclock), tt.Eq(rval, w.val)}
+			for j, w2 := range cands {
+				if i == j {
+					continue
+				}
+				c = append(c, tt.Not(tt.And(tt.Ult(w.clock, w2.clock), tt.Ult(w2.clock, rclock))))
+			}
+			alts = append(alts, tt.And(c...))
+		}
+		return tt.Or(alts...)
+	}
+	for _, e := range tc.events {
+		if e.kind == evRead {
+			phi = append(phi, rf(e.key, e.clock, e.val))
+		}
+	}
+	// 4. mutual exclusion of critical sections of the same mutex in different threads
+	type cs struct {
+		thread int
+		l, u   *event
+	}
+	var sections []cs
+	open := map[[2]interface{}]*event{}
+	for _, e := range tc.events {
+		k := [2]interface{}{e.thread, e.key}
+		switch e.kind {
+		case evLock:
+			open[k] = e
+		case evUnlock:
+			if l := open[k]; l != nil {
+				sections = append(sections, cs{e.thread, l, e})
+				delete(open, k)
+			}
+		}
+	}
+	for i := range sections {
+		for j := i + 1; j < len(sections); j++ {
+			a, b := sections[i], sections[j]
+			if a.thread == b.thread || a.l.key != b.l.key {
+				continue
+			}
+			phi = append(phi, tt.Or(tt.Ult(a.u.clock, b.l.clock), tt.Ult(b.u.clock, a.l.clock)))
+		}
+	}
+	// two writes / a write and a read of one cell never share a clock
+	for _, ws := range writes {
+		for i := range ws {
+			for j := i + 1; j < len(ws); j++ {
+				phi = append(phi, tt.Not(tt.Eq(ws[i].clock, ws[j].clock)))
+			}
+		}
+	}
+	// 6. the schedule goes on the tape: one clock per operation (its first event)
+	sched := TapeEntry{Name: "schedule", Kind: "sched"}
+	for ti, tr := range tc.threads {
+		for oi := range tr.ops {
+			var first *Term
+			for _, e := range tc.events {
+				if e.thread == ti && e.op == oi {
+					first = e.clock
+					break
+				}
+			}
+			if first == nil {
+				first = zero
+			}
+			sched.Terms = append(sched.Terms, tt.Const(W, uint64(ti)), first)
+		}
+	}
+	ex.tape = append(ex.tape, sched)
+	// 5. data-race freedom by locksets
+	for i, a := range tc.events {
+		if a.kind != evRead && a.kind != evWrite {
+			continue
+		}
+		for _, b := range tc.events[i+1:] {
+			if (b.kind != evRead && b.kind != evWrite) || a.thread == b.thread || a.key != b.key {
+				continue
+			}
+			if a.kind == evRead && b.kind == evRead {
+				continue
+			}
+			common := false
+			for k := range a.held {
+				if b.held[k] {
+					common = true
+				}
+			}
+			if !common {
+				ex.assertProp("datarace", tt.False)
+			}
+		}
+	}
+	ex.assume(tt.And(phi...))
+	// 7. after the join the main thread sees the last write to every cell
+	keys := make([]cellKey, 0, len(writes))
+	for k := range writes {
+		keys = append(keys, k)
+	}
+	sort.Slice(keys, func(i, j int) bool {
+		if keys[i].obj.ID != keys[j].obj.ID {
+			return keys[i].obj.ID < keys[j].obj.ID
+		}
+		return keys[i].cell < keys[j].cell
+	})
+	end := tt.Const(W, mask(W))
+	for _, k := range keys {
+		init := k.obj.Cells[k.cell].(*Term)
+		fv := tt.Var(fmt.Sprintf("final!%d.%d.w%d", k.obj.ID, k.cell, init.W), init.W)
+		ex.addPC(rf(k, end, fv))
+		k.obj.Cells[k.cell] = fv
+	}
+	ex.threads = nil
 }
